@@ -48,7 +48,7 @@ def run(eng, prop, tier, seed):
     ws = os.path.join(BUILD, 'ws')
     os.makedirs(ws, exist_ok=True)
     # mechanical copy of the workspace (sources only), preserving mtimes so cargo can reuse its cache
-    cmd = ['rsync', '-a', '--delete', '--exclude', 'target', '--exclude', '.git', '--exclude', 'crates/zz_c38_obl',
+    cmd = ['rsync', '-a', '--delete', '--exclude', 'target', '--exclude', '.git', '--exclude', 'crates/zz_c38_obl', '--exclude', 'crates/zz_c38_nim',
            REPO.rstrip('/') + '/', ws + '/']
     p = subprocess.run(cmd, capture_output=True, text=True)
     if p.returncode != 0:
@@ -78,7 +78,7 @@ def run(eng, prop, tier, seed):
     os.makedirs(os.path.join(obl, 'src'), exist_ok=True)
     open(os.path.join(obl, 'Cargo.toml'), 'w').write(
         '[package]\nname = "zz_c38_obl"\nversion = "0.0.0"\nedition = "2024"\npublish = false\n\n'
-        '[dependencies]\nemmylua_code_analysis = { path = "../emmylua_code_analysis" }\n')
+        '[features]\nvp_negative_control = []\n\n[dependencies]\nemmylua_code_analysis = { path = "../emmylua_code_analysis" }\n')
     lines = ['#![allow(unused_imports, dead_code)]', 'use emmylua_code_analysis::*;', 'use std::sync::Arc;',
              'fn assert_send_sync<T: Send + Sync>() {}']
     line_of = {}
@@ -86,7 +86,7 @@ def run(eng, prop, tier, seed):
         lines.append('pub fn ob_%s() { assert_send_sync::<%s>(); }' % (name, ty))
         line_of[len(lines)] = (name, ty)
     if eng.get('negative_control') and tier == 'thorough':
-        lines.append('#[cfg(vp_negative_control)] pub fn ob_negative_control() { assert_send_sync::<std::rc::Rc<u8>>(); }')
+        lines.append('#[cfg(feature = "vp_negative_control")] pub fn ob_negative_control() { assert_send_sync::<std::rc::Rc<u8>>(); }')
     src_path = os.path.join(obl, 'src', 'lib.rs')
     new_src = '\n'.join(lines) + '\n'
     if not os.path.exists(src_path) or open(src_path).read() != new_src:
@@ -96,8 +96,8 @@ def run(eng, prop, tier, seed):
 
     def check(extra_flags=None):
         e = dict(env)
-        if extra_flags: e['RUSTFLAGS'] = extra_flags
         c = ['cargo', 'check', '--offline', '-p', 'zz_c38_obl', '--message-format=json']
+        if extra_flags: c += ['--features', extra_flags]   # a feature of the obligation crate only: no dependency is rebuilt
         try:
             pr = subprocess.run(c, cwd=ws, env=e, capture_output=True, text=True, timeout=3000)
         except subprocess.TimeoutExpired:
@@ -122,10 +122,13 @@ def run(eng, prop, tier, seed):
             other.append(m.get('message', '')[:200])
     if other or (pr.returncode != 0 and not failed):
         raise Undecided('stripped workspace copy does not compile: %s %s' % (other[:3], pr.stderr[-300:] if not other else ''))
+    nim = None
+    if eng.get('immutable_shared_state') and (tier == 'thorough' or eng.get('immutable_quick')):
+        nim = run_nim(ws, fields, env)
     summary = {'unit': 'rustc-traits/c38', 'goals': ['%s: Send + Sync' % t for _, t in goals],
                'unsafe_impls_stripped': stripped, 'unsafe_impls_kept_not_held': kept, 'wall_s': round(time.time() - t0, 1)}
     if eng.get('negative_control') and tier == 'thorough':
-        pr2, errs2, _ = check('--cfg vp_negative_control')
+        pr2, errs2, _ = check('vp_negative_control')
         if not any('Rc<u8>' in m.get('rendered', '') for _, m in errs2):
             raise Undecided('negative control: Rc<u8>: Send + Sync was not rejected — the trait-goal machinery is vacuous')
         summary['negative_control'] = 'Rc<u8>: Send + Sync rejected as expected'
@@ -144,10 +147,114 @@ def run(eng, prop, tier, seed):
                    'note': 'auto-trait goal on the workspace copy with unsafe impl Send/Sync stripped: %s' % stripped},
                   open(rp, 'w'), indent=1)
         out_failed.append({'name': oname, 'replay': rp, 'witness': None})
-    return {'obligations': len(goals), 'discharged': len(goals) - failed_goals,
+    und = []
+    extra_ob = extra_dis = 0
+    extra_samples, extra_assume = [], []
+    if nim is not None:
+        summary['immutable_shared_state'] = nim['summary']
+        extra_ob, extra_dis = nim['obligations'], nim['discharged']
+        und = nim['undecided']
+        extra_samples, extra_assume = nim['samples'], nim['assumptions']
+        cmdline = cmdline + ' && ' + nim['cmd']
+    return {'undecided': und, 'obligations': len(goals) + extra_ob, 'discharged': len(goals) - failed_goals + extra_dis,
             'cmd': '(cd build/c38/ws && %s)   # workspace copy, `unsafe impl Send/Sync` stripped' % cmdline,
             'summary': summary,
-            'samples': ['rustc goal: %s: Send + Sync (no unsafe impl consulted)' % t for _, t in goals],
+            'samples': ['rustc goal: %s: Send + Sync (no unsafe impl consulted)' % t for _, t in goals] + extra_samples,
             'failed': out_failed,
             'assumptions': ['[c38] rustc auto-trait derivation; `unsafe impl Send/Sync` inside DEPENDENCIES (std, tokio, hashbrown, rowan, smol_str, internment …) are trusted',
-                            '[c38] kept (not held by the analysis, query-time view): %s' % (kept or 'none')]}
+                            '[c38] kept (not held by the analysis, query-time view): %s' % (kept or 'none')] + extra_assume}
+
+
+# ---------------------------------------------------------------------------------------------
+# dynamic sentence of C38 by a SUFFICIENT static condition: the shared analysis holds no interior mutability
+# ---------------------------------------------------------------------------------------------
+# library types with internal UnsafeCell state that is invisible to their users (reference counts, intern tables, scratch
+# pools): each one is a TRUSTED positive impl, listed in the evidence
+NIM_ALLOW = [
+    ('std::sync::Arc<T>', 'impl<T: ?Sized + NoInteriorMut> NoInteriorMut for std::sync::Arc<T> {}', 'atomic reference count only; the payload is checked'),
+    ('regex::Regex', 'impl NoInteriorMut for regex::Regex {}', 'per-thread scratch pool; matching is a function of (pattern, haystack)'),
+    ('internment::ArcIntern<T>', "impl<T: ?Sized + Eq + std::hash::Hash + Send + Sync + 'static + NoInteriorMut> NoInteriorMut for internment::ArcIntern<T> {}",
+     'reference count + global intern table; equality/hash are value based'),
+    ('rowan::GreenNode / GreenToken / NodeCache', 'impl NoInteriorMut for rowan::GreenNode {}\nimpl NoInteriorMut for rowan::GreenToken {}\nimpl NoInteriorMut for rowan::NodeCache {}',
+     'immutable green trees behind reference counts; the NodeCache is only written through &mut (Vfs::set_file_content)'),
+    ('smol_str::SmolStr', 'impl NoInteriorMut for smol_str::SmolStr {}', 'inline or Arc<str>'),
+]
+
+
+def run_nim(ws, fields, env):
+    """`T: NoInteriorMut` for every field type of EmmyLuaAnalysis and for DbIndex, where `NoInteriorMut` is an auto trait with a
+    negative impl for UnsafeCell (nightly rustc: auto_traits, negative_impls). The trait solver derives it structurally through
+    every field of every reachable type, private ones included. If it holds, `&EmmyLuaAnalysis` is deeply immutable: read-only
+    queries are functions of that immutable data plus their own per-query state, so any interleaving of them gives the
+    sequential results and there is nothing to race on. If it FAILS the sufficient condition is gone - that is UNDECIDED, never
+    an alarm by itself (a transparent lock-protected cache would keep the property): the bounded stress search replay/c38 is
+    then the only thing that can turn it into a violation, with a concrete schedule-dependent answer."""
+    t0 = time.time()
+    obl = os.path.join(ws, 'crates', 'zz_c38_nim')
+    os.makedirs(os.path.join(obl, 'src'), exist_ok=True)
+    toml = ('[package]\nname = "zz_c38_nim"\nversion = "0.0.0"\nedition = "2024"\npublish = false\n\n[features]\nvp_negative_control = []\n\n[dependencies]\n'
+            'emmylua_code_analysis = { path = "../emmylua_code_analysis" }\nregex.workspace = true\ninternment.workspace = true\n'
+            'rowan.workspace = true\nsmol_str.workspace = true\n')
+    tp = os.path.join(obl, 'Cargo.toml')
+    if not os.path.exists(tp) or open(tp).read() != toml: open(tp, 'w').write(toml)
+    goals = [('field_' + n, t) for n, t in fields] + [('db_index', 'DbIndex')]
+    lines = ['#![feature(auto_traits, negative_impls)]', '#![allow(unused_imports, dead_code)]', 'use emmylua_code_analysis::*;', 'use std::sync::Arc;',
+             'pub auto trait NoInteriorMut {}', 'impl<T: ?Sized> !NoInteriorMut for core::cell::UnsafeCell<T> {}']
+    for _, impl, _ in NIM_ALLOW: lines += impl.split('\n')
+    lines.append('fn assert_nim<T: NoInteriorMut>() {}')
+    line_of = {}
+    for name, ty in goals:
+        lines.append('pub fn ob_%s() { assert_nim::<%s>(); }' % (name, ty))
+        line_of[len(lines)] = (name, ty)
+    # negative control, always on: a Mutex inside an Arc must be rejected
+    lines.append('#[cfg(feature = "vp_negative_control")] pub fn ob_negative_control() { assert_nim::<Arc<std::sync::Mutex<u8>>>(); }')
+    sp = os.path.join(obl, 'src', 'lib.rs')
+    new_src = '\n'.join(lines) + '\n'
+    if not os.path.exists(sp) or open(sp).read() != new_src: open(sp, 'w').write(new_src)
+    e = dict(env); e['CARGO_TARGET_DIR'] = os.path.join(BUILD, 'target-nightly')
+
+    def check(flags=None):
+        ee = dict(e)
+        c = ['cargo', '+nightly', 'check', '--offline', '-p', 'zz_c38_nim', '--message-format=json']
+        if flags: c += ['--features', flags]
+        try:
+            pr = subprocess.run(c, cwd=ws, env=ee, capture_output=True, text=True, timeout=3000)
+        except subprocess.TimeoutExpired:
+            raise Undecided('cargo +nightly check timed out')
+        errs = []
+        for l in pr.stdout.split('\n'):
+            if not l.startswith('{'): continue
+            try: d = json.loads(l)
+            except json.JSONDecodeError: continue
+            if d.get('reason') == 'compiler-message' and d['message'].get('level') == 'error':
+                errs.append((d.get('package_id', ''), d['message']))
+        return pr, errs, ' '.join(c)
+
+    pr, errs, cmdline = check()
+    failed, other = {}, []
+    for pkg, m in errs:
+        prim = next((s_ for s_ in m.get('spans', []) if s_.get('is_primary')), None)
+        if 'zz_c38_nim' in pkg and prim and prim['line_start'] in line_of and (m.get('code') or {}).get('code') == 'E0277':
+            failed.setdefault(line_of[prim['line_start']], []).append(m.get('rendered', ''))
+        else:
+            other.append(m.get('message', '')[:200])
+    und = []
+    if other or (pr.returncode != 0 and not failed):
+        und.append('C38.immutable-shared-state: the nightly obligation crate does not compile: %s %s' % (other[:2], pr.stderr[-200:] if not other else ''))
+    for (name, ty), rs in failed.items():
+        path = [l.strip() for l in '\n'.join(rs).split('\n') if 'required because it appears within the type' in l]
+        own = [l for l in path if re.search(r'`(Lua|Db|Emmy|Vfs|File|Module|Diagnostic)', l)]
+        und.append('C38.immutable-shared-state[%s]: interior mutability is reachable from the shared analysis (%s) - the static argument for '
+                   '"concurrent == sequential" no longer applies' % (ty, '; '.join((own or path)[:2])[:300]))
+    pr2, errs2, _ = check('vp_negative_control')
+    if not any('Mutex' in m.get('rendered', '') for _, m in errs2):
+        und.append('C38.immutable-shared-state: negative control (Arc<Mutex<u8>>) was not rejected - the goal machinery is vacuous')
+    ok = len(goals) - len(failed) if not und or failed else 0
+    return {'obligations': len(goals), 'discharged': ok if not (other or (pr.returncode != 0 and not failed)) else 0, 'undecided': und,
+            'cmd': '(cd build/c38/ws && %s)' % cmdline,
+            'summary': {'goals': ['%s: NoInteriorMut' % t for _, t in goals], 'negative_control': 'Arc<Mutex<u8>>: NoInteriorMut rejected' if not any('negative control' in u for u in und) else 'FAILED',
+                        'wall_s': round(time.time() - t0, 1)},
+            'samples': ['rustc goal: %s: NoInteriorMut (auto trait, negative impl for UnsafeCell): no interior mutability reachable => read-only queries cannot influence each other' % t for _, t in goals],
+            'assumptions': ['[c38] NoInteriorMut is TRUSTED for %s (%s)' % (n, why) for n, _, why in NIM_ALLOW] +
+                           ['[c38] global state outside the analysis value (statics, thread-locals, the file system, log) is not covered by the immutability argument',
+                            '[c38] nightly rustc features auto_traits + negative_impls; structural auto-trait derivation through private fields']}
